@@ -73,6 +73,15 @@ SnapIsCommitted(s) ==
     /\ MetaKeysEq(Range(s.meta), mem.meta \ burst)
     /\ \A i \in 1..Len(s.meta) : s.meta[i] \in DOMAIN metav /\ MetaEq(s.metav[i], metav[s.meta[i]])
 
+(* A stage may set its header keywords one by one and rewrite the file ONCE when it is done (NuSpaceSim!MutateMore): a header mutation   *)
+(* continues the burst in progress when the hook says so (same writer call, by frame identity) or when the burst consists of unflushed *)
+(* keywords of the same channel - the file snapshot taken before this mutation does not hold them yet.  The burst must be on disk      *)
+(* before anything else happens: a column store, the return, or the next channel's keywords find it flushed or fail the clause.       *)
+Unflushed(snap) == burst # {} /\ burst \subseteq StageKeys /\ Range(snap.meta) \cap burst = {}
+Cont(e) == e.cont \/ (e.kind = "meta" /\ Unflushed(e.disk) /\ \A q \in burst : \A n \in Range(e.names) : SameChannel(q, n))
+(* a run that FAILS while a burst is unflushed leaves the table as of the last completed boundary *)
+EndInCall(e) == e.inWriter \/ (e.outcome # "return" /\ Unflushed(e.disk))
+
 DiskClausesAt(s, inCall) ==
     IF cfg.writeStages
       THEN IF done = {} \/ (inCall /\ mem.meta \ burst = {} /\ SelectSeq(mem.cols, LAMBDA c : c \notin burst) = <<>>)
@@ -90,7 +99,7 @@ Check(e) ==
     CASE e.kind = "Begin" -> <<>>
       [] e.kind \in {"cols", "meta"} ->
             LET id == IdOf(e) IN
-            Fails(DiskClausesAt(e.disk, e.cont) \o
+            Fails(DiskClausesAt(e.disk, Cont(e)) \o
                   (IF id = "?" THEN <<>>
                    ELSE << <<"C14 stage runs only when enabled for this configuration and after the stages it depends on",
                              CanDoT(id)>> >>) \o
@@ -99,7 +108,7 @@ Check(e) ==
       [] e.kind = "End" ->
             (* e.inWriter: the run failed INSIDE a writer call, while the table was being converted for the rewrite: the file is still the   *)
             (* table as of the last completed boundary                                                                                   *)
-            Fails(DiskClausesAt(e.disk, e.inWriter) \o
+            Fails(DiskClausesAt(e.disk, EndInCall(e)) \o
                   << <<"C14 no exception unless a fault was injected", e.outcome = "return" \/ e.injected>>,
                      <<"C14 returned table = the table built by the stages; columns unchanged since they were stored",
                        e.outcome # "return" \/
@@ -125,7 +134,7 @@ Effect(e) ==
             /\ rows' = IF rows < 0 THEN e.rows ELSE rows
             /\ cfg' = IF id = "Geom" THEN [cfg EXCEPT !.survivors = e.rows > 0] ELSE IF id = "?" THEN cfg ELSE Going
             /\ disk' = [present |-> e.disk.present, cols |-> e.disk.cols, meta |-> Range(e.disk.meta)]
-            /\ burst' = (IF e.cont THEN burst ELSE {}) \cup Range(e.names)
+            /\ burst' = (IF Cont(e) THEN burst ELSE {}) \cup Range(e.names)
             /\ UNCHANGED <<metav, pending, phase, disk0>>
       [] e.kind = "meta" ->
             LET id == IdOf(e) IN
@@ -136,7 +145,7 @@ Effect(e) ==
                           ELSE metav[n]]
             /\ disk' = [present |-> e.disk.present, cols |-> e.disk.cols, meta |-> Range(e.disk.meta)]
             /\ cfg' = IF id = "?" THEN cfg ELSE Going       \* a keyword no stage of the model writes says nothing about the stages
-            /\ burst' = (IF e.cont THEN burst ELSE {}) \cup Range(e.names)
+            /\ burst' = (IF Cont(e) THEN burst ELSE {}) \cup Range(e.names)
             /\ UNCHANGED <<dig, rows, pending, phase, disk0>>
       [] e.kind = "End" ->
             /\ phase' = (IF e.outcome = "return" THEN "returned" ELSE IF e.outcome = "raise" THEN "failed" ELSE "dead")
